@@ -386,4 +386,8 @@ def run(ctx, chk):
     chk.ob("C11.shape", "leaf arms cover the four integer and four float/ctrl widths", want_leaf <= seen_leaf, where, fn=f.name, key="leaf:all",
            detail="" if want_leaf <= seen_leaf else "missing %s" % sorted(want_leaf - seen_leaf))
     chk.floor("C11.shape", "leaf copy paths", nleaf, 8)
+    chk.rule("C11.getters", "each field accessor returns, on every path, the value of the field it stands for (resolved through the struct "
+             "types): no guard, clamp or second opinion between the stored value and the caller (the copy is compared with its source through these accessors)")
+    import rules as _rg
+    _rg.check_field_getters(chk, "C11.getters", prog, eff, names=None)
     chk.exhaustive = True
